@@ -16,10 +16,21 @@ type packet struct {
 
 // packetsWithSizeFromBytes returns lv (tlv without t(ype)) packets
 func packetsWithSizeFromBytes(length int, r io.Reader) []packet {
+	packets, _ := readPackets(length, r)
+	return packets
+}
+
+// readPackets reads r until its end and returns the bytes as lv (tlv without t(ype)) packets.
+// An error of r other than its end is returned: the bytes which were read until then are not the message.
+func readPackets(length int, r io.Reader) ([]packet, error) {
 	var packets []packet
 	for {
 		var value = make([]byte, length)
 		n, err := io.ReadFull(r, value)
+		if err != nil && err != io.EOF && err != io.ErrUnexpectedEOF {
+			return packets, err
+		}
+
 		if n == 0 {
 			break
 		}
@@ -36,7 +47,7 @@ func packetsWithSizeFromBytes(length int, r io.Reader) []packet {
 		}
 	}
 
-	return packets
+	return packets, nil
 }
 
 // packetsFromBytes returns packets with length PacketLengthMax
